@@ -36,6 +36,8 @@ var registry = map[string]*Property{}
 
 func register(p *Property) { registry[p.ID] = p }
 
+var globalNoNorm bool
+
 func main() {
 	prop := flag.String("prop", "", "property id (C01..C20)")
 	tier := flag.String("tier", "quick", "quick|thorough")
@@ -44,7 +46,20 @@ func main() {
 	genManifest := flag.Bool("gen-manifest", false, "print MANIFEST.json")
 	explain := flag.String("explain", "", "print a replay file")
 	list := flag.Bool("list", false, "list properties")
+	noNorm := flag.Bool("no-normalize", false, "debugging: analyse the program as written, without helper expansion")
+	dumpNorm := flag.String("dump-normalized", "", "debugging: print the normalised source of the named function(s) (substring of the declaration name) and exit")
+	flag.BoolVar(&debugNormalize, "debug-normalize", false, "debugging: log reverted functions")
 	flag.Parse()
+	globalNoNorm = *noNorm
+	if *dumpNorm != "" {
+		prog, err := Load(LoadOpts{Root: *repo})
+		if err != nil {
+			fmt.Println(err)
+			os.Exit(2)
+		}
+		dumpNormalized(prog, *dumpNorm)
+		return
+	}
 
 	if *verif == "" {
 		exe, _ := os.Executable()
@@ -123,7 +138,7 @@ func run(p *Property, tier, repo, verif string) (code int) {
 		out := c.Finish(verif, nil, start, p.Explanation, p.Trusted, p.Assumptions)
 		return out.ExitCode
 	}
-	prog, err := Load(LoadOpts{Root: repo, Whole: tier == "thorough", Overlay: controlOverlay(p.ID, repo)})
+	prog, err := Load(LoadOpts{Root: repo, Whole: tier == "thorough", Overlay: controlOverlay(p.ID, repo), NoNorm: globalNoNorm})
 	if err != nil {
 		return fail("FRAMEWORK.LOAD", "load "+repo, err.Error())
 	}
@@ -146,7 +161,7 @@ func run(p *Property, tier, repo, verif string) (code int) {
 	}
 	if tier == "thorough" {
 		// second load for the other word size: build-tag dependent files are covered too
-		prog386, err := Load(LoadOpts{Root: repo, Whole: false, GoArch: "386", Overlay: controlOverlay(p.ID, repo)})
+		prog386, err := Load(LoadOpts{Root: repo, Whole: false, GoArch: "386", Overlay: controlOverlay(p.ID, repo), NoNorm: globalNoNorm})
 		if err != nil {
 			c.Undecided("FRAMEWORK.LOAD386", "load GOARCH=386", "-", err.Error())
 		} else {
